@@ -69,6 +69,9 @@ DepthSeq(D, all) ==      \* D <= 12
 
 (* Mutations of an honest batch opening B = [n, idx, lv, nodes, depth]; T compact tree accessor.
    A mutation carries only the components it changes. *)
+\* positions that get mutated: all of 1..N when N is small, a spread of five otherwise
+Sel(N) == IF N <= 10 THEN [r \in 1..N |-> r] ELSE <<1, 2, N \div 2, N - 1, N>>
+
 BatchMuts(T, B, alld) ==
   LET n == B.n  idx == B.idx  lv == B.lv  nodes == B.nodes  D == B.depth
       L == Len(idx)  S == Rng(idx)  co == Coords(nodes)  NC == Len(co)  NV == Len(nodes)
@@ -77,24 +80,27 @@ BatchMuts(T, B, alld) ==
       Ps == IF NV = 1 THEN <<1>> ELSE <<1, NV>>
       M(k, e) == [k |-> k] @@ e
       \* --- wrong data -------------------------------------------------------------------------
-      leafM == Concat([k \in 1..L |->
+      sL == Sel(L)  sC == Sel(NC)  sV == Sel(NV)
+      leafM == Concat([x \in 1..Len(sL) |-> LET k == sL[x] IN
                  << M("b_leaf", [lv |-> SetAt(lv, k, Foreign(0))]) @@ Reject,
                     M("b_leaf", [lv |-> SetAt(lv, k, Leaf(Xor1(idx[k])))]) @@ Reject >>])
                \o (IF L >= 2 THEN << M("b_leaf", [lv |-> SetAt(lv, 1, lv[2])]) @@ Reject >> ELSE <<>>)
-      nodeM == Concat([r \in 1..NC |->
+      nodeM == Concat([x \in 1..Len(sC) |-> LET r == sC[x] IN
                  << M("b_node", [nodes |-> SetNode(nodes, co[r], Foreign(1))]) @@ Reject,
                     M("b_node", [nodes |-> SetNode(nodes, co[r], T[1])]) @@ Reject >>])
                \o (IF NC >= 1 THEN << M("b_node", [nodes |-> SetNode(nodes, co[1], lv[1])]) @@ Reject >> ELSE <<>>)
-      nswapM == [r \in 1..(IF NC = 0 THEN 0 ELSE NC - 1) |->
+      sW == Sel(IF NC = 0 THEN 0 ELSE NC - 1)
+      nswapM == [x \in 1..Len(sW) |-> LET r == sW[x] IN
                  M("b_nodeswap", [nodes |-> SetNode(SetNode(nodes, co[r], nodes[co[r + 1][1]][co[r + 1][2]]),
                                                     co[r + 1], nodes[co[r][1]][co[r][2]])]) @@ Reject]
       idxM == IF free = {} THEN <<>>
               ELSE LET lo == CHOOSE x \in free : \A y \in free : x <= y
                        hi == CHOOSE x \in free : \A y \in free : x >= y IN
-                   Concat([k \in 1..L |->
+                   Concat([x \in 1..Len(sL) |-> LET k == sL[x] IN
                      << M("b_idx", [idx |-> SetAt(idx, k, lo)]) @@ Reject >>
                      \o (IF hi # lo THEN << M("b_idx", [idx |-> SetAt(idx, k, hi)]) @@ Reject >> ELSE <<>>)])
-      pairs == IF L < 2 THEN <<>> ELSE [k \in 1..(L - 1) |-> <<k, k + 1>>] \o (IF L >= 3 THEN <<<<1, L>>>> ELSE <<>>)
+      sP == Sel(IF L < 2 THEN 0 ELSE L - 1)
+      pairs == IF L < 2 THEN <<>> ELSE [x \in 1..Len(sP) |-> <<sP[x], sP[x] + 1>>] \o (IF L >= 3 THEN <<<<1, L>>>> ELSE <<>>)
       iswapM == Concat([r \in 1..Len(pairs) |->
                  << M("b_idxswap", [idx |-> SwapAt(idx, pairs[r][1], pairs[r][2])]) @@ Reject,
                     M("b_swapboth", [idx |-> SwapAt(idx, pairs[r][1], pairs[r][2]),
@@ -112,9 +118,9 @@ BatchMuts(T, B, alld) ==
                    M("b_empty", [idx |-> <<>>]) @@ AllErr,
                    M("sh_empty", [idx |-> <<>>, lv |-> <<>>, nodes |-> <<>>, depth |-> 0]) @@ AllErr >>
       \* --- malformed shapes -------------------------------------------------------------------
-      dropnM == [r \in 1..NC |-> M("sh_dropnode", [nodes |-> DropNode(nodes, co[r])]) @@ AllErr]
-      dropvM == [p \in 1..NV |-> M("sh_dropvec", [nodes |-> DelAt(nodes, p)])
-                                   @@ (IF Len(nodes[p]) > 0 THEN AllErr ELSE NoPanic)]
+      dropnM == [x \in 1..Len(sC) |-> M("sh_dropnode", [nodes |-> DropNode(nodes, co[sC[x]])]) @@ AllErr]
+      dropvM == [x \in 1..Len(sV) |-> M("sh_dropvec", [nodes |-> DelAt(nodes, sV[x])])
+                                   @@ (IF Len(nodes[sV[x]]) > 0 THEN AllErr ELSE NoPanic)]
                 \o << M("sh_dropvec", [nodes |-> <<>>]) @@ (IF NC > 0 THEN AllErr ELSE NoPanic) >>
       addnM == Concat([r \in 1..Len(Ps) |->
                  << M("sh_addnode", [nodes |-> [nodes EXCEPT ![Ps[r]] = Append(@, Foreign(3))]]) @@ NoPanic,
@@ -158,6 +164,21 @@ MutConsistent(c, root, B, m) ==
               /\ (m.io = "ok" => io.t = "ok")
               /\ (m.io = "err" => io.t = "err")
   IN IF good THEN TRUE ELSE Print(<<"INCONSISTENT", m, gr, io.t>>, FALSE)
+
+(***************************************************************************)
+(* arbitrary malformed proofs: case [kind "shape", n = depth, idx, sidx = node-vector lengths    *)
+(* followed by the number of leaves].  Nodes and leaves are digests foreign to every tree, so   *)
+(* the root of the 2-leaf tree can never be reconstructed; invalid index lists and too few      *)
+(* leaves must give Err everywhere, the rest only has to be panic free.                          *)
+(***************************************************************************)
+ShapeInput(depth, idx, lens, nl) ==
+  [n |-> 2, idx |-> idx, lv |-> [k \in 1..nl |-> Foreign(200 + k)],
+   nodes |-> [p \in 1..Len(lens) |-> [q \in 1..lens[p] |-> Foreign(100 + 10 * p + q)]], depth |-> depth]
+ShapeExp(X) ==
+  IF \/ X.idx = <<>> \/ Cardinality(Rng(X.idx)) # Len(X.idx) \/ X.depth >= 64
+     \/ \E k \in 1..Len(X.idx) : ~InRange(X.idx[k], X.depth) \/ Len(X.lv) < Len(X.idx)
+    THEN AllErr ELSE Reject
+ShapeOf(cs) == ShapeInput(cs.n, cs.idx, SubSeq(cs.sidx, 1, Len(cs.sidx) - 1), cs.sidx[Len(cs.sidx)])
 
 (***************************************************************************)
 (* single openings                                                         *)
@@ -230,6 +251,7 @@ DesignTree(n, sidx) ==
 
 Design ==
   IF case.kind \in {"start", "chunk"} THEN TRUE
+  ELSE IF case.kind = "shape" THEN LET X == ShapeOf(case) IN MutConsistent(2, Ref(1), X, [k |-> "shape"] @@ ShapeExp(X))
   ELSE IF case.kind = "tree" THEN DesignTree(case.n, Rng(case.sidx))
   ELSE /\ DesignBatch(case.n, TreeC(case.n), case.n, case.idx)
        /\ (EmitC19 => DesignMuts(case.n, TreeC(case.n), case.n, case.idx, case.alld))
@@ -258,6 +280,12 @@ BatchRecord(n, idx, alld) ==
    openings |-> IF EmitC18 THEN [k \in 1..Len(idx) |-> OpeningT(T, n, idx[k])] ELSE <<>>,
    muts |-> IF EmitC19 THEN BatchMuts(T, B, alld) ELSE <<>>]
 
-Emit == case.kind \in {"start", "chunk"} \/ PrintT(<<"REPLAY", ToJson(IF case.kind = "tree" THEN TreeRecord(case.n, case.sidx)
-                                  ELSE BatchRecord(case.n, case.idx, case.alld))>>)
+ShapeRecord(X) ==
+  [kind |-> "shape", n |-> 2, idx |-> X.idx, root |-> Ref(1), leaves |-> X.lv, nodes |-> X.nodes, depth |-> X.depth,
+   muts |-> << [k |-> "shape"] @@ ShapeExp(X) >>]
+
+Emit == case.kind \in {"start", "chunk"}
+        \/ PrintT(<<"REPLAY", ToJson(IF case.kind = "tree" THEN TreeRecord(case.n, case.sidx)
+                                      ELSE IF case.kind = "shape" THEN ShapeRecord(ShapeOf(case))
+                                      ELSE BatchRecord(case.n, case.idx, case.alld))>>)
 =============================================================================
